@@ -254,3 +254,26 @@ def arm_store_before_suspend(ck, P, fields=("adler",), R="ORDER/arm-store-before
                   "header does not fit the output the arm is left with the new status set and the store never happens (the check "
                   "value then starts from the dictionary's Adler-32 / a stale index)" % (fp[-1], v, bad), where(f, st.get("line") if isinstance(st, dict) else None))
     ck.floor(R, n, 1)
+
+
+def fast_loop_epilogue(ck, P, R="CUT/fast-loop-epilogue"):
+    """the fast decoding loops read whole bytes ahead into the bit buffer; every way out of such a function passes the call that
+    hands the unused whole bytes back to the input cursor (BitReader::return_unused_bytes) - also the way out through the
+    end-of-block and error breaks"""
+    n = 0
+    for f in sorted(P.fns.values(), key=lambda f: f.path):
+        if not f.path.startswith(Z + "inflate"):
+            continue
+        cs = f.live_calls(r"inflate::bitreader::BitReader::return_unused_bytes$")
+        if not cs:
+            continue
+        n += 1
+        ck.use_fn(f)
+        blocks = {c.bb for c in cs}
+        reach = f.reach_from(0, block_ok=lambda b: b not in blocks)
+        leaks = sorted(b for b, k in f.exits() if k == "return" and b in reach)
+        ck.decide(not leaks, R, f.path.replace(Z, ""), "every return passes return_unused_bytes",
+                  "%s can return without handing the whole bytes left in the bit buffer back to the input cursor: next_in/avail_in then "
+                  "overstate the input consumed (by up to 7 bytes) although the output is right" % f.path.replace(Z, ""),
+                  where(f, f.blocks[leaks[0]]["t"].get("line") if leaks else None))
+    ck.floor(R, n, 2)
